@@ -4,7 +4,7 @@
    a sample of every run (the in-kernel sample), so the extraction itself is checked. *)
 From Coq Require Import List Ascii String Bool Arith NArith ZArith.
 Require Import Show.
-Require V1 V5 V6 V3.
+Require V1 V5 V6 V3 V11.
 Import ListNotations.
 Open Scope string_scope.
 Open Scope list_scope.
@@ -19,6 +19,16 @@ Definition mkv3 (e u r : str) : V3.version :=
 Definition show_v3 (v : V3.version) : str :=
   unwords [show_N (V3.epoch v); hx (V3.upstream v); hx (V3.revision v)].
 
+Definition show_v6 (v : V6.version) : str :=
+  unwords [show_N (V6.epoch v); hx (V6.upstream v); hx (V6.revision v)].
+Fixpoint triples (a : list str) : list V6.version :=
+  match a with e :: u :: r :: rest => mkv6 e u r :: triples rest | _ => [] end.
+Fixpoint nondecreasing (l : list V6.version) : bool :=
+  match l with
+  | a :: ((b :: _) as r) => (V6.compare a b <=? 0)%Z && nondecreasing r
+  | _ => true
+  end.
+
 Definition run_version (op : string) (a : list str) : option str :=
   let g n := nth_arg n a in
   if op =? "vcmp" then Some (show_sgn (V6.compare (mkv6 (g 0) (g 1) (g 2)) (mkv6 (g 3) (g 4) (g 5))))
@@ -28,15 +38,26 @@ Definition run_version (op : string) (a : list str) : option str :=
     Some (show_cmp (V5.policy_cmp (S (List.length (g 0) + List.length (g 1))) (g 0) (g 1)))
   else if op =? "vrevcmp" then Some (show_sgn (V6.vcmp (g 0) (g 1)))
   else if op =? "vparse" then
-    Some (match V3.parse (g 0) with Some v => lit "ok " ++ show_v3 v | None => lit "err" end)
+    Some (match V11.parse_u (g 0) with Some v => lit "ok " ++ show_v3 v | None => lit "err" end)
   else if op =? "vstring" then Some (hx (V3.to_string (mkv3 (g 0) (g 1) (g 2))))
   else if op =? "vroundtrip" then
-    Some (match V3.parse (g 0) with
+    Some (match V11.parse_u (g 0) with
           | None => lit "err"
           | Some v => let t := V3.to_string v in
                       lit "ok " ++ hx t ++ sp1 ++
-                      match V3.parse t with Some w => lit "ok " ++ show_v3 w | None => lit "err" end
+                      match V11.parse_u t with Some w => lit "ok " ++ show_v3 w | None => lit "err" end
           end)
+  else if op =? "vforms" then
+    Some (match V11.parse_u (g 0) with
+          | None => lit "err"
+          | Some v => let t := V3.to_string v in
+                      let back := match V11.parse_u t with Some w => show_v3 w | None => lit "err" end in
+                      lit "ok " ++ hx t ++ sp1 ++ hx t ++ sp1 ++ show_list (fun x => x) [back; back; back; back]
+          end)
+  else if op =? "vparse_ascii" then
+    Some (match V3.parse (g 0) with Some v => lit "ok " ++ show_v3 v | None => lit "err" end)
+  else if op =? "vsort" then Some (show_list (fun v => lit "( " ++ show_v6 v ++ lit " )") (V6.VSort.sort (triples a)))
+  else if op =? "vsorted" then Some (show_bool (nondecreasing (triples a)))
   else None.
 
 Definition run (op : string) (hexargs : list str) : str :=
